@@ -25,8 +25,8 @@ CLAIMS = {
          "one inner-loop invariant of EnvMap is listed as not decided; toMapData (struct data through reflection) is a trusted contract; loadConfig order not under contract."),
  "C09": ("Lock discipline for every shared cache (ExprEvaluator.programs, Vue.templateCache, the global pathCache): the guarded map is read only with its RWMutex held (read or write) and written only with the write lock; every locking function starts with no lock held and releases everything on every return path (ghost held-state, Lock/RLock/Unlock/RUnlock preconditions); clone helpers used before evaluation return fresh nodes with copied attribute slices.",
          "NOT a schedule exploration: interleavings, happens-before outside the declared guarded fields, pool hand-over and 'same bytes as alone' are not decided; assumes no lock is held when a locking function is entered."),
- "C10": ("Pool discipline: Pop empties a map before Put (loop invariant over the visited set) and only recycles maps that came from the pool (object invariant of Stack, ghost fromPool); the pooled strings.Builder is Reset before Put on every path of interpolate (deferred closure); NewNode zeroes every field; clone helpers copy attribute slices.",
-         "determinism of attribute order (map iteration) and cache soundness are not under contract."),
+ "C10": ("Pool discipline: Pop empties a map before Put (loop invariant over the visited set) and only recycles maps that came from the pool (object invariant of Stack, ghost fromPool); the pooled strings.Builder is Reset before Put on every path of interpolate (deferred closure); NewNode zeroes every field; clone helpers copy attribute slices; Fill never adopts the caller's map. Determinism sweep: for every function one obligation order:maprange states that no map-range loop feeds an order-sensitive accumulator (append / string concatenation carried around the loop, writes to an outer writer) unless a sort call dominates every later use.",
+         "the order:maprange obligations are decided by a dataflow rule over go/ssa (backend 'dataflow'), not by the solver; calls of arbitrary functions inside a map-range body are not analysed; time-seeded v-once ids are not under contract."),
  "C11": ("Zero-annotation panic sweep over every function of the production packages: index/slice bounds, nil dereference, type assertions, nil-map writes, division by zero, explicit panics; layout loop termination (decreases). Discharged obligations form the baseline.",
          "obligations that do not discharge are listed as undecided and are not counted; recursion depth over includes not yet bounded. Reflection-based traversal and calls (Resolve/resolveStep/internal/reflect, callFunc) are covered only by the two BOUNDED stand-ins of C17 and C13 (a panic there is a bounded failure), never counted as proved."),
  "C12": ("For every render entry point (Render, RenderFile, RenderString, RenderByte, RenderReader, layout, renderWithoutLayout, Vue.Render/RenderFragment/RenderNodes, renderNodesWithContext, render, renderNode(WithContext)): error without writer failure => nothing written; writer failure => non-nil error; nil error => no new writer failure. Writer failure at every offset is the universally quantified Write stub.",
